@@ -41,6 +41,10 @@ func init() {
 			c05fxReplay(c, a)
 			return
 		}
+		if len(a) == 3 && a[0] == "cnt" {
+			c05cntReplay(c, a)
+			return
+		}
 		if len(a) == 5 && a[0] == "al" {
 			c05alReplay(c, a)
 			return
@@ -1024,6 +1028,8 @@ func runC05(c *ctx) {
 	}
 	c05corpus(c)
 	runC05alCorpus(c) // corpus of c05align.go
+	runC05fxCorpus(c) // corpus of c05faults.go (the exhaustive and random parts of that mode run last)
+	runC05cnt(c)      // the counters of Hosts against Model/C05Count.lean (c05count.go)
 	c05exhaustive(c)
 	c05random(c)
 	nMaps := 300
